@@ -648,6 +648,24 @@ func lexemes(text string) []map[string]interface{} {
 	return out
 }
 
+var gqlKeywords = map[string]bool{"query": true, "mutation": true, "subscription": true, "fragment": true, "on": true, "true": true, "false": true, "null": true}
+
+// messageWords: the words (runs of name characters) of an error message, without the keywords of the language.
+// Envelope!LocationOK uses those that are name lexemes of the submitted document: an error that carries a location
+// and names a token of the document is located on a line where that token stands.
+func messageWords(msg string) []string {
+	seen := map[string]bool{}
+	out := []string{}
+	for _, lx := range lexemes(msg) {
+		w, _ := lx["key"].(string)
+		if w != "" && !gqlKeywords[w] && !seen[w] && len(w) > 1 {
+			seen[w] = true
+			out = append(out, w)
+		}
+	}
+	return out
+}
+
 // skeleton reduces a response to what Envelope!WellFormed looks at.
 func skeleton(res map[string]interface{}) map[string]interface{} {
 	keys := []string{}
@@ -682,7 +700,7 @@ func skeleton(res map[string]interface{}) map[string]interface{} {
 		for _, e := range el {
 			em, _ := e.(map[string]interface{})
 			msg, _ := em["message"].(string)
-			rec := map[string]interface{}{"msg": len(msg), "key": ""}
+			rec := map[string]interface{}{"msg": len(msg), "key": "", "words": messageWords(msg)}
 			kinds := []string{}
 			if p, ok := em["path"].([]interface{}); ok {
 				for _, pe := range p {
